@@ -190,6 +190,52 @@ def _cond_root(f, v, depth=0):
     return v
 
 
+def _sorted_guard_semantic(P, f):
+    """abstract execution (bitflow) of the function that calls bsearch with the language flags as symbols: True iff every execution that reaches bsearch has is_sorted = 1;
+    None when the function is outside what the harness models"""
+    from .bitflow import Interp, State, Ptr, BV, Tag, Unmodelled
+    from .ir import LANG_STRUCT
+    lf = {n: (o, sz) for o, (n, sz) in P.field_table(LANG_STRUCT).items()}
+    summ = {}
+    I = Interp(P, summaries=summ)
+    seen = []
+    def bs(I_, st, args, inst):
+        seen.append(st.cons.reduce(I_.V.bit('lang.is_sorted'))); return BV.const(0, 64)
+    summ['bsearch'] = bs
+    summ['psa_cmp_never'] = lambda I_, st, args, inst: BV.const(1, 32)
+    st = State(); st.mem.new('lang', 8, 0)
+    def hook(I_, st_, ptr, nbytes, inst, as_ptr):
+        c0, steps = ptr.parts if ptr.parts else (ptr.coff(), [])
+        if not steps and c0 is not None:
+            fb = P.flag_load(LANG_STRUCT, c0, nbytes, {n: I_.V.bit('lang.' + n) for n in ('is_sorted', 'has_prefix', 'has_accents', 'compose')})
+            if fb is not None: return BV(fb)
+        if steps and c0 == lf['words'][0]: return Tag('word', tuple(steps[0][0].bits))
+        raise Unmodelled('read of the language table at %s' % inst.loc)
+    st.mem.hooks = {'lang': hook}
+    args = []
+    for n_, p_ in enumerate(f.params):
+        ty = p_['ty']
+        if ty == '%' + LANG_STRUCT + '*': args.append(Ptr('lang', 0))
+        elif ty == 'i8*': args.append(Tag('token', 0))
+        elif ty.endswith(')*'): args.append(Ptr('f:psa_cmp_never', 0))
+        elif ty == 'i8**':
+            nm = 'arg%d' % n_; st.mem.new(nm, 128, 0)
+            for k in range(16):
+                for j in range(8): st.mem.objs[nm][8 * k + j] = ('tag', Tag('token', k), j)
+            args.append(Ptr(nm, 0))
+        elif ty.endswith('*'):
+            nm = 'arg%d' % n_; st.mem.new(nm, 256, 0); args.append(Ptr(nm, 0))
+        elif p_.get('bits'): args.append(BV.const(0, p_['bits']))
+        else: return None
+    try:
+        I.budget = 64; I.max_steps = 2000000
+        I.run(f, args, st)
+    except Unmodelled:
+        return None
+    if not seen: return None
+    return all(b == 1 for b in seen)
+
+
 def search_callsite(ctx, rep, cfgs=None):
     """C07 clause 5: lang_search's constants"""
     for cfg in cfgs or ctx.configs('path'):
@@ -223,6 +269,12 @@ def search_callsite(ctx, rep, cfgs=None):
                 offs = sorted(set(o for _, _, o in bases), key=str)
                 nmv = sorted(set(const_of(v) for _, v, _ in nms), key=str); szv = sorted(set(const_of(v) for _, v, _ in szs), key=str)
                 ok = offs == [woff] and nmv == [nwords] and szv == [8] and nwords == 2048
+                if not ok:
+                    # operands computed across helper boundaries (pointer ranges, context structs, length helpers): small symbolic evaluation
+                    sb, sn, ss = P.sym(f, i.ops[1]), P.sym(f, i.ops[2]), P.sym(f, i.ops[3])
+                    if sb and sn and ss and sb[0] == 'ptr' and sb[1][0] == 'val' and sn[0] == 'int' and ss[0] == 'int':
+                        offs, nmv, szv = [sb[2]], [sn[1]], [ss[1]]
+                        ok = offs == [woff] and nmv == [nwords] and szv == [8] and nwords == 2048
                 rep.check(ok, 'bsearch at %s searches all %d entries of lang->words with element size 8 (operands resolved through the parameters of %s to its call sites)' % (i.loc, nwords, base_name(f.name)), i.loc,
                           '%s bsearch' % base_name(f.name), detail={'base_offsets': offs, 'nmemb': nmv, 'size': szv, 'words_offset': woff},
                           sample={'site': i.loc, 'nmemb': nmv, 'size': szv})
@@ -247,6 +299,27 @@ def search_callsite(ctx, rep, cfgs=None):
                     for (g2, v2, _) in P.leaves(f, _cond_root(f, tb.ops[0])):
                         if _field_of(P, g2, v2) == 'is_sorted': guarded = True
                     if guarded: break
+                if not guarded:
+                    # the helper that calls bsearch is itself reached only under the test: every call site of f (two levels up at most) is guarded
+                    def site_guarded(g, ci, depth=0):
+                        dg = g.dominators()
+                        for b in dg[ci.bb]:
+                            tb = g.blocks[b][-1]
+                            if tb.op != 'br' or len(tb.ops) != 3 or b == ci.bb: continue
+                            via = [s_ for s_ in g.succs[b][:2] if s_ == ci.bb or s_ in dg[ci.bb]]
+                            if len(via) != 1: continue
+                            if _field_of(P, g, tb.ops[0]) == 'is_sorted': return True
+                            if any(_field_of(P, g2, v2) == 'is_sorted' for (g2, v2, _) in P.leaves(g, _cond_root(g, tb.ops[0]))): return True
+                        if depth >= 2: return False
+                        sites = [(h, cj) for h in P.defined.values() for cj, ct in P.calls(h) if ct == ('direct', g.name)]
+                        return bool(sites) and all(site_guarded(h, cj, depth + 1) for h, cj in sites)
+                    sites = [(h, cj) for h in P.defined.values() for cj, ct in P.calls(h) if ct == ('direct', f.name)]
+                    guarded = bool(sites) and all(site_guarded(h, cj) for h, cj in sites)
+                if not guarded:
+                    sem = _sorted_guard_semantic(P, f)
+                    if sem is None:
+                        raise AnalysisBroken('TAB-5: cannot relate the condition under which bsearch at %s is reached to the is_sorted flag (neither structurally nor by abstract execution of %s)' % (i.loc, base_name(f.name)))
+                    guarded = sem
                 rep.check(guarded, 'bsearch at %s is reached only under a test of the table\'s is_sorted flag (unsorted lists take the linear scan)' % i.loc, i.loc,
                           '%s: binary search without consulting is_sorted' % base_name(f.name), detail={'conditional_dominators_seen': seen_cond}, key='TAB-5|sorted-guard|%s' % base_name(f.name))
 
